@@ -622,6 +622,15 @@ md@K@(a, b) ==> (mc@K@(a) * b);
         for us in itertools.permutations(muses, n) if tier == 'thorough' else [m for m in itertools.combinations(muses, n)]:
             body = ''.join('\tpIMI("K@K@:", %s);\n' % e for e, _ in us)
             C.append(raw(mac + 'c@K@(): () == {\n\timport from MachineInteger;\n%s}\n' % body, [str(v) for _, v in us]))
+    # default parameter values and keyword arguments: every way of supplying the three parameters of one function
+    kdef = 'sc@K@(x: MachineInteger, factor: MachineInteger == 10, offs: MachineInteger == 0): MachineInteger == { import from MachineInteger; x * factor + offs };\n'
+    kuses = [('sc@K@(2)', 20), ('sc@K@(2, 3)', 6), ('sc@K@(2, 3, 4)', 10), ('sc@K@(2, offs == 1)', 21), ('sc@K@(2, factor == 3)', 6), ('sc@K@(2, 3, offs == 4)', 10),
+             ('sc@K@(2, offs == 1, factor == 5)', 11), ('sc@K@(2, factor == 5, offs == 1)', 11), ('sc@K@(x == 2)', 20), ('sc@K@(factor == 3, x == 2)', 6),
+             ('sc@K@(offs == 7, factor == 3, x == 2)', 13), ('sc@K@(sc@K@(1), offs == sc@K@(1, 1))', 101)]
+    for i in range(0, len(kuses), 4):
+        us = kuses[i:i + 4]
+        body = ''.join('\tpIMI("K@K@:", %s);\n' % e for e, _ in us)
+        C.append(raw(kdef + 'c@K@(): () == {\n\timport from MachineInteger;\n%s}\n' % body, [str(v) for _, v in us]))
     # macro parameter shadowing a local name, macro using a local
     C.append(raw('mq@K@(x) ==> (x * y);\nc@K@(): () == {\n\timport from MachineInteger;\n\ty: MachineInteger := 3;\n\tx: MachineInteger := 100;\n\tpIMI("K@K@:", mq@K@(5));\n\tpIMI("K@K@:", mq@K@(y));\n}\n', ['15', '9']))
     return C
